@@ -349,4 +349,8 @@ def run(c, facts):
     R8 = c.rule('C04.R8', 'GRAPH-COMPLETE: every use adds a dependency edge, so every cycle is seen (shared with C08.R2)')
     c.shared(R8, c08.r2_pairing, 'C08.R2', facts)
     c.run(lambda c: r9_emit_total(c, facts))
+    import c09
+    R10 = c.rule('C04.R10', 'RECURSION-SAFE: a recursive program is either rejected or evaluated without running away: the cycle check is a fix-point that never cuts at an unresolved tag, and every cast that takes schema values takes the recursion marker (shared with C09.R3/R5)')
+    c.shared(R10, c09.r3_cut_agree, 'C09.R3', facts)
+    c.shared(R10, c09.r5_recursion_is_schema, 'C09.R5', facts)
     panic_census(c, facts)
